@@ -256,10 +256,14 @@ class LocalFileStore(Store):
             if os.path.exists(loc) and os.path.realpath(loc) == loc_blob:
                 _logger.debug(f"Link {loc} up to date")
             else:
-                if os.path.exists(loc):
-                    os.remove(loc)
                 _logger.info(f"Link {loc} -> {loc_blob}")
-                os.symlink(loc_blob, loc)
+                # The new link is created under a temporary name and renamed over the previous one: the path
+                # always resolves to its previous or to its new blob, also for other processes and if this
+                # process is killed here (removing the old link first would leave a window without any link,
+                # and a dangling link would make symlink() fail).
+                tmp_loc = _tmp_name(loc)
+                os.symlink(loc_blob, tmp_loc)
+                os.replace(tmp_loc, loc)
 
     def fetch_paths(self, paths: List[DDSPath]) -> "OrderedDict[DDSPath, PyHash]":
         res = OrderedDict()
